@@ -90,6 +90,11 @@ def generate(seed: int, tier: str) -> Dict[str, Any]:
                                         "t2_k": r.choice([0, 1, 2, 64]), "t3_ops": r.choice([0, 1, 3])}}
     ops = E.gen_ops(rng.stream("ops"), world, r.randint(2, 8), turn_ids=r.choice(["seq", "seq", "rand"]))
     if r.chance(0.3):
+        # the logical clock handed over as ctx.now_ms only (ctx.now unset), the way run_smoke_turn builds its context
+        for o in ops:
+            if o["op"] == "turn":
+                o["with_now"] = False
+    if r.chance(0.3):
         # fresh process in the middle of the sequence: state comes back from the snapshot directory (E5 varies the order in
         # which that directory is enumerated; tied time stamps are what a restore from backup / checkout leaves behind)
         turn_idx = [i for i, o in enumerate(ops) if o["op"] == "turn"]
@@ -105,6 +110,19 @@ def generate(seed: int, tier: str) -> Dict[str, Any]:
 
 def run_env(program: Dict[str, Any], env: str) -> Dict[str, Any]:
     """Execute the program once; returns artefacts with paths normalised."""
+    if env == "E6":
+        # a warm process: the same program already ran here, its process-global stage caches are still populated
+        with Scratch() as root0:
+            e0 = E.EngineEnv(root0, SimClock(None, "steady"))
+            e0.leave_process_state = True
+            with e0 as ee0:
+                run0 = E.EngineRun(program["world"], program["cfg"], ee0)
+                for op in program["ops"]:
+                    if op.get("op") != "restart":
+                        run0.step(op)
+                    else:
+                        run0.state = E.build_state(run0.world)
+        return run_env(program, "E6b")
     rng = Rng(int(program["clock_seed"]))
     if env == "E1":
         clock = SimClock(rng.stream("clock"), program.get("profile", "slow"),
@@ -114,7 +132,7 @@ def run_env(program: Dict[str, Any], env: str) -> Dict[str, Any]:
     par = bool(((program["cfg"].get("perf") or {}).get("parallel") or {}).get("enabled"))
     sched_digest = None
     with Scratch() as root:
-        with E.EngineEnv(root, clock) as ee, DirOrder(root, int(program["clock_seed"]) if env == "E5" else None):
+        with E.EngineEnv(root, clock, keep_process_state=(env == "E6b")) as ee, DirOrder(root, int(program["clock_seed"]) if env == "E5" else None):
             run = E.EngineRun(program["world"], program["cfg"], ee)
             nontrivial = False
             if par:
@@ -189,6 +207,50 @@ def _first_diff(a: Dict[str, Any], b: Dict[str, Any]) -> Optional[Dict[str, str]
     return None
 
 
+_CACHE_DIAG = ("cache_hits", "cache_misses", "cache_used", "cache_evictions", "cache_bytes", "cache_enabled", "cache_hit", "cache_size")
+
+
+def _mask_cache_diagnostics(x: Dict[str, Any], y: Dict[str, Any]) -> Tuple[Dict[str, Any], Dict[str, Any]]:
+    """Both artefact sets with the stage-cache counters zeroed; the T1 max-delta gauge is zeroed only in rows where one
+    of the two sides was served from the cache (a served result reports 0.0 by specification)."""
+    outs = ({"lines": x["lines"], "snaps": x["snaps"], "logs": {}}, {"lines": y["lines"], "snaps": y["snaps"], "logs": {}})
+    for n in sorted(set(x["logs"]) | set(y["logs"])):
+        tx, ty = x["logs"].get(n), y["logs"].get(n)
+        if n not in ("t1.jsonl", "t2.jsonl") or tx is None or ty is None:
+            for o, t in zip(outs, (tx, ty)):
+                if t is not None:
+                    o["logs"][n] = t
+            continue
+        lx, ly = tx.splitlines(), ty.splitlines()
+        rx, ry = [], []
+        for i in range(max(len(lx), len(ly))):
+            recs = []
+            for ls in (lx, ly):
+                try:
+                    recs.append(json.loads(ls[i]) if i < len(ls) else None)
+                except Exception:
+                    recs.append(ls[i])
+            served = any(isinstance(r, dict) and (r.get("cache_hits") or r.get("cache_used")) for r in recs)
+            for r, rows in zip(recs, (rx, ry)):
+                if r is None:
+                    continue
+                if isinstance(r, dict):
+                    for k in list(r):
+                        if k in _CACHE_DIAG or k.startswith("t1.cache_") or k.startswith("t2.cache_"):
+                            r[k] = 0
+                    if served and n == "t1.jsonl":
+                        # gauges that exist only for a fresh computation; a served result reports their zero value
+                        for g in ("max_delta", "t1_frontier_evicted", "t1_dedup_hits", "t1_visited_evicted"):
+                            if g in r:
+                                r[g] = 0
+                    rows.append(json.dumps(r, sort_keys=True))
+                else:
+                    rows.append(r)
+        outs[0]["logs"][n] = "\n".join(rx)
+        outs[1]["logs"][n] = "\n".join(ry)
+    return outs
+
+
 def execute(program: Dict[str, Any]) -> Dict[str, Any]:
     stats: Dict[str, int] = {}
     faults: Dict[str, int] = {}
@@ -203,6 +265,7 @@ def execute(program: Dict[str, Any]) -> Dict[str, Any]:
     if any(o.get("op") == "restart" for o in program["ops"]):
         envs["dirorder"] = run_env(program, "E5")
         stats["restart_runs"] = 1
+    envs["warmcaches"] = run_env(program, "E6")
     hs = str(program.get("hashseed", "1"))
     child = _CHILDREN.get(hs)
     if child is None:
@@ -221,6 +284,16 @@ def execute(program: Dict[str, Any]) -> Dict[str, Any]:
         if name.startswith("hashseed"):
             faults[name.replace(":", "_")] = faults.get(name.replace(":", "_"), 0) + 1
         d = _first_diff(base, art)
+        if d is not None and name == "warmcaches":
+            # which part of the difference is stage-cache diagnostics (counters, the gauge that is only measured on a fresh
+            # computation)?  Those are reported under ONE signature; anything beyond them under its own.
+            d2 = _first_diff(*_mask_cache_diagnostics(base, art))
+            if d2 is None:
+                violations.append({"cls": "not-reproducible", "sig": "warmcaches:cache-diagnostics-only",
+                                   "detail": "a warm process (stage caches populated by an earlier replay) logs different cache counters in %s (%s): %s  VS  %s" % (
+                                       d["artefact"], d["where"], d["a"], d["b"])})
+                continue
+            d = d2
         if d is not None:
             axis = name.split(":")[0]
             sig = "%s:%s:%s" % (axis, d["artefact"], d.get("field", d["where"].split(" ")[0]))
